@@ -178,7 +178,7 @@ def run(tier, seed, replay=None):
                       {"theorem_or_correspondence": "C17 oracle: real threads vs specification (C17_statement clause %s)" % ("4" if hang else "1-3"),
                        "case": worst["case"], "impl": worst["impl"], "spec": worst["expected"], "mode": mode,
                        "schedule_legend": "C = one step of the controller, P = one step of the parsing thread, a step = code between two yield points; "
-                                          "commands R run, V recv, K cont, A<r>/D<r> add/delete breakpoint (rule index in the CFG line of `c17 entries`)",
+                                          "commands R run, V recv, K cont, A<r>/D<r> add/delete breakpoint (rule index in the CFG line of `c17 entries`), L add_all_rules_breakpoints",
                        "others": len(spec_m) - 1})
     elif model_m:
         worst = min(model_m, key=lambda m: (m["impl"].startswith("SKIPPED"), len(m["case"])))
